@@ -1,2 +1,3 @@
 import RattrDriver.JsonUtil
 import RattrDriver.C04
+import RattrDriver.C03
